@@ -109,6 +109,10 @@ namespace mpf = boost::multiprecision;
 ///@todo rational scalers
 ///@todo rational simplifier
 
+#ifdef SOPLEX_VERIF
+struct SoPlexVerifAccess;   // read-only observer used by the verification harnesses in /verif
+#endif
+
 namespace soplex
 {
 
@@ -119,6 +123,9 @@ namespace soplex
 template <class R>
 class SoPlexBase
 {
+#ifdef SOPLEX_VERIF
+   friend struct ::SoPlexVerifAccess;
+#endif
 public:
 
    ///@name Construction and destruction
